@@ -89,6 +89,14 @@ def run(ctx):
         "generated Generated/C01Match and whose source shape the translator checks fragment by fragment; that the compiled match behaves as "
         "the arrangement says rests on the differential run of the match / match-order class representatives (JIT vs Spec) on every run; "
         "enum values in Model/Spec carry constructor NAMES, the harness prints the same names into the Roto source",
+        "the code-generation layer (Props/C01Cg) is a theorem about Model/C01Cg.lean: the builder interface of Model/C01CgBase.lean is this "
+        "project's reading of cranelift-frontend 0.127 (Switch::set_entry panics on a duplicate index, Switch::emit goes to the entry equal to "
+        "the value and to `otherwise` when there is none; one CLIF block per LIR label); the arms Jump / Switch / Assign / Return are the "
+        "re-translated Generated/C01Cg, the dispatch of the other instruction kinds, FuncGen::entry_block and everything below the builder "
+        "(expansion of Switch into br_table / brif, SSA construction, instruction selection) are not modelled; tie: cRun on the emitted code of "
+        "the model's LIR of the real MIR gives the Spec's value on every tuple (c01 lirrun), and the differential run of the real JIT",
+        "the `char` class representatives encode a char as its code point (u32 with == / != only) for the Spec and the harness interpreter; "
+        "the Roto source the compiler sees uses `char` and character literals",
         "the abstract CFG of Model/Dce.lean stands for mir::Item.blocks; its tie is the translator target `dce` plus running "
         "Dce.dce on the real pre-DCE CFG of every generated program (hook verif_hooks::c01::cfgs)",
     ]
@@ -99,13 +107,15 @@ def run(ctx):
              "`_` alone, reversed, all+`_`, guarded arms of one variant, guards with effects, nested / examinee / arithmetic / loop / "
              "parameter / unit forms, each run on EVERY variant; match-order — every well-typed sequence of <= 4 arms over variants and `_`, "
              "guarded or not, on the built-in Option and user enums x every combination of guard outcomes x every variant; float — 66 nested "
-             "unary/binary operator shapes on f32/f64 x boundary operand pairs (+-0, +-1, +-inf, NaN, subnormals, MAX, equal operands). "
+             "unary/binary operator shapes on f32/f64 x boundary operand pairs (+-0, +-1, +-inf, NaN, subnormals, MAX, equal operands); char — 17 "
+             "shapes of == / != on characters (helpers, literals, variables, parameters, if-else values, loop conditions) over code points that differ in the "
+             "low byte / above it / above 16 bits x 90 selector tuples, and 7 programs with char parameters / results called on every pair / triple of 14 boundary code points. "
              "operator table: every (operator, type) x boundary^2 + random operands, JIT vs Spec; programs: type-directed "
              "generator (helpers, (mutual) recursion, while, if/else, early return, compound assignment, shadowing, dead code; every other "
              "program declares enum types with 2..5 variants and matches on them: arm shapes incl. one variant + `_`, guards, nested) x 30 "
              "argument tuples (boundary, random, small); T5 tie: 16 class representatives (one per construct of the fragment) first, then "
              "generated i32/bool programs with variables named by level: Spec value = composed-model value = JIT value on every tuple, and "
-             "the model's structured MIR = the real MIR dump of every function, the LIR model on the real MIR = the real LIR of every function, and mRun (real MIR) = lRun (model LIR) = Spec value; a class is distinct by (type, operator, outcome) in the table, by program "
+             "the model's structured MIR = the real MIR dump of every function, the LIR model on the real MIR = the real LIR of every function, and mRun (real MIR) = lRun (model LIR) = cRun (code the cg model emits for it) = Spec value; a class is distinct by (type, operator, outcome) in the table, by program "
              "text with >=1 execution where the Spec yields a value and the JIT agrees, by (construct set, arg type, ret type), or (t5:) by "
              "construct set of a fragment program whose MIR comparison succeeded on all functions, or (rep:) by class representative with "
              "the number of distinct results it was observed with",
